@@ -519,24 +519,15 @@ theorem gen_pool_find (h : Nat → Nat) (t : PTable) (k : Nat) :
   · simp only [ha, if_true]; exact gen_pool_find_loop h t k _ _ _
   · simp [ha, iterOf, findResult]
 
-theorem gen_pool_removeValue_k2 (h : Nat → Nat) (t : PTable) (value : Nat) (item : Nat) :
-    HashLink.PoolMap.removeValue_k2 h t value item =
-      some { ({ t with size := t.size - 1 } : PTable).setPrev item t.freeItem with freeItem := some item } := rfl
-
-theorem gen_pool_removeValue_k1 (h : Nat → Nat) (t : PTable) (value : Nat) (item : Nat) :
-    HashLink.PoolMap.removeValue_k1 h t value item =
-      some { (t.unlinkOrder item).setPrev item (t.unlinkOrder item).freeItem with freeItem := some item } := by
-  unfold HashLink.PoolMap.removeValue_k1 PTable.unlinkOrder
-  simp only [gen_pool_removeValue_k2]
-  cases h2 : (t.items item).prev <;> rfl
-
 /-- The translated `PoolMap::remove(const V& value)` (`item` = the item the value lives in) is the table the model's
-    `removeItem` yields, on every table in which the item's `cell` does not designate the item's own `nextCell`. -/
+    `removeItem` yields, on every table in which the item's `cell` does not designate the item's own `nextCell` (proved
+    independently of the statement order, as for the other two containers). -/
 theorem gen_pool_removeValue (h : Nat → Nat) (t : PTable) (item : Nat) (hc : (t.items item).cell ≠ .nextOf item) :
     HashLink.PoolMap.removeValue h t item = some (t.removeItem item).1 := by
-  unfold HashLink.PoolMap.removeValue PTable.removeItem PTable.unlinkChain
-  simp only [gen_pool_removeValue_k1]
-  cases h1 : (t.items item).nextCell <;> simp only [writeCell_items_ne t _ _ item hc, h1]
+  unfold HashLink.PoolMap.removeValue PTable.removeItem PTable.unlinkChain PTable.unlinkOrder
+  rcases hnc : (t.items item).nextCell with _ | n <;> rcases hpv : (t.items item).prev with _ | p <;>
+    simp [writeCell_items_ne t _ _ item hc, hnc, hpv, setCell_prev, setCell_next, writeCell_prev, writeCell_next,
+      setPrev_next, setPrevOf_next]
 
 /-- The translated `PoolMap::remove(const Iterator&)` (`remove(item->value); return item->next;`) is the model's `removeItem`:
     `item->next` is read from the released item. -/
@@ -591,23 +582,74 @@ theorem gen_pool_removeBack {h : Nat → Nat} {pt : PTable} {t : Table} (hr : Re
       exact List.mem_of_getLast? this.symm
     simp [gen_pool_removeIt_rel hr hi x hm]
 
-theorem gen_pool_insert_k2 (h : Nat → Nat) (t : PTable) (pos : Nxt) (k : Nat) (it : Nxt) (item hc : Nat) (c : CellRef) (ip : Nxt) :
-    HashLink.PoolMap.insert_k2 h t pos k it item hc c ip =
-      some ({ (t.setNext item ip).setPrevOf ip (some item) with size := ((t.setNext item ip).setPrevOf ip (some item)).size + 1 }, .item item) := rfl
-
-theorem gen_pool_insert_k1 (h : Nat → Nat) (t : PTable) (pos : Nxt) (k : Nat) (it : Nxt) (item hc : Nat) (c : CellRef)
-    (hp : pos ≠ .item item) :
-    HashLink.PoolMap.insert_k1 h t pos k it item hc c = some ((t.writeCell c (some item)).linkOrder item pos, .item item) := by
-  unfold HashLink.PoolMap.insert_k1 PTable.linkOrder
-  simp only [gen_pool_insert_k2, prevOf_setPrev _ _ _ _ hp]
-  cases hq : (t.writeCell c (some item)).prevOf pos <;> rfl
+theorem gen_pool_insert_link (h : Nat → Nat) (t : PTable) (pos : Nxt) (k v : Nat) (it : Nxt) (item : Nat)
+    (H1 : pos ≠ .item item) (H2 : t.prevOf pos ≠ some item) (H3 : t.heads (h k % t.cap) ≠ some item) :
+    HashLink.PoolMap.insert_k1 h t pos k it (some item) =
+      some ((({ t with freeItem := (t.items item).prev } : PTable).linkChain Kind.pool item (h k % t.cap) k v).linkOrder item pos, .item item) := by
+  unfold HashLink.PoolMap.insert_k1 PTable.linkChain PTable.linkOrder
+  rcases hh : t.heads (h k % t.cap) with _ | n <;> rcases pos with j | o
+  case none.item =>
+    have hj : j ≠ item := fun e => H1 (by rw [e])
+    rcases hq : (t.items j).prev with _ | q
+    · simp [PTable.constructAt, PTable.setCell, PTable.setNextCell, PTable.readCell, PTable.writeCell, PTable.setPrev, PTable.setNext,
+          PTable.prevOf, PTable.setPrevOf, upd_same, upd_upd, Table.storedValue, hh, hq, upd_ne _ _ _ _ hj]
+      try (funext x; by_cases e_xj : x = j <;> by_cases e_xi : x = item <;> simp_all [upd])
+    · have hqi : q ≠ item := fun e => H2 (by simp [PTable.prevOf, hq, e])
+      simp [PTable.constructAt, PTable.setCell, PTable.setNextCell, PTable.readCell, PTable.writeCell, PTable.setPrev, PTable.setNext,
+          PTable.prevOf, PTable.setPrevOf, upd_same, upd_upd, Table.storedValue, hh, hq, upd_ne _ _ _ _ hj, upd_ne _ _ _ _ hqi]
+      try (funext x; by_cases e_jq : j = q <;> by_cases e_xj : x = j <;> by_cases e_xq : x = q <;> by_cases e_xi : x = item <;> simp_all [upd])
+  case none.stl =>
+    rcases hq : t.endPrev with _ | q
+    · simp [PTable.constructAt, PTable.setCell, PTable.setNextCell, PTable.readCell, PTable.writeCell, PTable.setPrev, PTable.setNext,
+          PTable.prevOf, PTable.setPrevOf, upd_same, upd_upd, Table.storedValue, hh, hq, upd_same]
+      try (funext x; by_cases e_xi : x = item <;> simp_all [upd])
+    · have hqi : q ≠ item := fun e => H2 (by simp [PTable.prevOf, hq, e])
+      simp [PTable.constructAt, PTable.setCell, PTable.setNextCell, PTable.readCell, PTable.writeCell, PTable.setPrev, PTable.setNext,
+          PTable.prevOf, PTable.setPrevOf, upd_same, upd_upd, Table.storedValue, hh, hq, upd_ne _ _ _ _ hqi]
+      try (funext x; by_cases e_xq : x = q <;> by_cases e_xi : x = item <;> simp_all [upd])
+  case some.item =>
+    have hni : n ≠ item := fun e => H3 (by rw [hh, e])
+    have hj : j ≠ item := fun e => H1 (by rw [e])
+    by_cases hjn : j = n
+    · subst hjn
+      rcases hq : (t.items j).prev with _ | q
+      · simp [PTable.constructAt, PTable.setCell, PTable.setNextCell, PTable.readCell, PTable.writeCell, PTable.setPrev, PTable.setNext,
+            PTable.prevOf, PTable.setPrevOf, upd_same, upd_upd, Table.storedValue, hh, hq, upd_ne _ _ _ _ hj, upd_ne _ _ _ _ hni]
+        try (funext x; by_cases e_xj : x = j <;> by_cases e_xi : x = item <;> simp_all [upd])
+      · have hqi : q ≠ item := fun e => H2 (by simp [PTable.prevOf, hq, e])
+        simp [PTable.constructAt, PTable.setCell, PTable.setNextCell, PTable.readCell, PTable.writeCell, PTable.setPrev, PTable.setNext,
+            PTable.prevOf, PTable.setPrevOf, upd_same, upd_upd, Table.storedValue, hh, hq, upd_ne _ _ _ _ hj, upd_ne _ _ _ _ hqi, upd_ne _ _ _ _ hni]
+        try (funext x; by_cases e_jq : j = q <;> by_cases e_xj : x = j <;> by_cases e_xq : x = q <;> by_cases e_xi : x = item <;> simp_all [upd])
+    · have hjn' : j ≠ n := hjn
+      rcases hq : (t.items j).prev with _ | q
+      · simp [PTable.constructAt, PTable.setCell, PTable.setNextCell, PTable.readCell, PTable.writeCell, PTable.setPrev, PTable.setNext,
+            PTable.prevOf, PTable.setPrevOf, upd_same, upd_upd, Table.storedValue, hh, hq, upd_ne _ _ _ _ hj, upd_ne _ _ _ _ hjn', upd_ne _ _ _ _ hni]
+        try (funext x; by_cases e_jn : j = n <;> by_cases e_xj : x = j <;> by_cases e_xn : x = n <;> by_cases e_xi : x = item <;> simp_all [upd])
+      · have hqi : q ≠ item := fun e => H2 (by simp [PTable.prevOf, hq, e])
+        simp [PTable.constructAt, PTable.setCell, PTable.setNextCell, PTable.readCell, PTable.writeCell, PTable.setPrev, PTable.setNext,
+            PTable.prevOf, PTable.setPrevOf, upd_same, upd_upd, Table.storedValue, hh, hq, upd_ne _ _ _ _ hj, upd_ne _ _ _ _ hjn', upd_ne _ _ _ _ hqi, upd_ne _ _ _ _ hni]
+        try (funext x; by_cases e_jq : j = q <;> by_cases e_jn : j = n <;> by_cases e_qn : q = n <;> by_cases e_xj : x = j <;> by_cases e_xq : x = q <;> by_cases e_xn : x = n <;> by_cases e_xi : x = item <;> simp_all [upd])
+  case some.stl =>
+    have hni : n ≠ item := fun e => H3 (by rw [hh, e])
+    rcases hq : t.endPrev with _ | q
+    · simp [PTable.constructAt, PTable.setCell, PTable.setNextCell, PTable.readCell, PTable.writeCell, PTable.setPrev, PTable.setNext,
+          PTable.prevOf, PTable.setPrevOf, upd_same, upd_upd, Table.storedValue, hh, hq, upd_ne _ _ _ _ hni]
+      try (funext x; by_cases e_xn : x = n <;> by_cases e_xi : x = item <;> simp_all [upd])
+    · have hqi : q ≠ item := fun e => H2 (by simp [PTable.prevOf, hq, e])
+      simp [PTable.constructAt, PTable.setCell, PTable.setNextCell, PTable.readCell, PTable.writeCell, PTable.setPrev, PTable.setNext,
+          PTable.prevOf, PTable.setPrevOf, upd_same, upd_upd, Table.storedValue, hh, hq, upd_ne _ _ _ _ hqi, upd_ne _ _ _ _ hni]
+      try (funext x; by_cases e_qn : q = n <;> by_cases e_xq : x = q <;> by_cases e_xn : x = n <;> by_cases e_xi : x = item <;> simp_all [upd])
 
 /-- The translated `PoolMap::insert(position, key)` is the model's `insert` (for every `v`: the value is default-constructed) –
     `find`; an existing key is left alone; otherwise bucket array on first use, the head of the free list (after a new block
     was pushed on it when it was empty), construction, `freeItem = item->prev` read AFTER the construction, push to the front
     of the bucket chain, link before `position` – on every table on which the item the allocator hands out is not the one
-    `position` designates. -/
-theorem gen_pool_insert (h : Nat → Nat) (t : PTable) (pos : Nxt) (k v : Nat) (hp : pos ≠ .item (t.allocItem Kind.pool).1) :
+    `position` designates, nor its predecessor, nor the head of the key's bucket. -/
+theorem gen_pool_insert (h : Nat → Nat) (t : PTable) (pos : Nxt) (k v : Nat)
+    (H1 : pos ≠ .item (t.withBuckets.allocItem Kind.pool).1)
+    (H2 : (t.withBuckets.allocItem Kind.pool).2.prevOf pos ≠ some (t.withBuckets.allocItem Kind.pool).1)
+    (H3 : (t.withBuckets.allocItem Kind.pool).2.heads (h k % (t.withBuckets.allocItem Kind.pool).2.cap) ≠
+      some (t.withBuckets.allocItem Kind.pool).1) :
     HashLink.PoolMap.insert h t pos k = (t.insert Kind.pool h pos k v).map (fun r => (r.1, Nxt.item r.2)) := by
   unfold HashLink.PoolMap.insert PTable.insert
   rw [gen_pool_find]
@@ -620,32 +662,25 @@ theorem gen_pool_insert (h : Nat → Nat) (t : PTable) (pos : Nxt) (k v : Nat) (
       simp only [Option.map_some, findResult, iterOf, if_true]
       unfold PTable.linkNew
       rw [withBuckets_eq]
-      rw [← allocItem_withBuckets_fst] at hp
       have e1 : (if t.allocated then t else t.allocBuckets) = t.withBuckets := rfl
       rw [e1]
-      generalize t.withBuckets = t0 at hp ⊢
-      unfold PTable.allocItem at hp ⊢
-      unfold PTable.linkChain
+      generalize t.withBuckets = t0 at H1 H2 H3 ⊢
+      unfold PTable.allocItem at H1 H2 H3 ⊢
       cases hfree : t0.freeItem with
       | some f =>
-        simp only [hfree, Option.isNone_some, Bool.false_eq_true, if_false] at hp ⊢
-        simp only [gen_pool_insert_k1 _ _ _ _ _ _ _ _ hp]
-        simp only [PTable.constructAt, PTable.setCell, PTable.setNextCell, PTable.readCell, PTable.writeCell, upd_same, upd_upd,
-          Table.storedValue, reduceCtorEq, if_false]
-        cases hh : t0.heads (h k % t0.cap) <;> rfl
+        simp only [hfree, Option.isNone_some, Bool.false_eq_true, if_false] at H1 H2 H3 ⊢
+        rw [gen_pool_insert_link h t0 pos k v _ f H1 H2 H3]
       | none =>
         have e2 : ({ t0 with freeItem := none } : PTable) = t0 := by cases t0; simp_all
-        simp only [hfree, Option.isNone_none, if_true, e2, PTable.newBlockAll, pushFree_freeItem] at hp ⊢
-        simp only [gen_pool_insert_k1 _ _ _ _ _ _ _ _ hp]
-        simp only [PTable.constructAt, PTable.setCell, PTable.setNextCell, PTable.readCell, PTable.writeCell, upd_same, upd_upd,
-          Table.storedValue, reduceCtorEq, if_false]
-        cases hh : (t0.pushFree (t0.ipb * t0.blocks) (t0.ipb - 1 + 1)).heads (h k % (t0.pushFree (t0.ipb * t0.blocks) (t0.ipb - 1 + 1)).cap) <;> rfl
+        simp only [hfree, Option.isNone_none, if_true, e2, PTable.newBlockAll, pushFree_freeItem] at H1 H2 H3 ⊢
+        exact (gen_pool_insert_link h _ pos k v _ _ H1 H2 H3).trans rfl
 
 /-- … hence on every table that represents a model state, for every position `p ≤ size` (`size` = `end()`). -/
 theorem gen_pool_insert_rel {h : Nat → Nat} {pt : PTable} {t : Table} (hr : Rel pt t) (hi : t.Inv h) (p k v : Nat) :
     HashLink.PoolMap.insert h pt (nxtAt pt.self t.order p) k =
       (pt.insert Kind.pool h (nxtAt pt.self t.order p) k v).map (fun r => (r.1, Nxt.item r.2)) :=
-  gen_pool_insert h pt _ k v (hr.alloc_ne_pos hi Kind.pool p)
+  gen_pool_insert h pt _ k v (by rw [allocItem_withBuckets_fst]; exact hr.alloc_ne_pos hi Kind.pool p)
+    (hr.link_facts hi Kind.pool p 0).1 (hr.link_facts hi Kind.pool p _).2
 
 theorem gen_pool_clear_loop (h : Nat → Nat) (fuel : Nat) : ∀ (t : PTable) (i : Nxt),
     HashLink.PoolMap.clear_loop1 h fuel t i (.stl t.self) =
@@ -1118,11 +1153,13 @@ theorem gen_pool_back (h : Nat → Nat) (t : PTable) :
   cases t.endPrev <;> simp [shown]
 
 /-- `append(key)` = `insert(_end, …).item->value`: the value of the item the returned iterator designates -/
-theorem gen_pool_append (h : Nat → Nat) (t : PTable) (k v : Nat) :
-    HashLink.PoolMap.append h t k = (t.insert Kind.pool h (.stl t.self) k v).map (fun r => (r.1, (r.1.items r.2).value)) := by
+theorem gen_pool_append {h : Nat → Nat} {pt : PTable} {t : Table} (hr : Rel pt t) (hi : t.Inv h) (k v : Nat) :
+    HashLink.PoolMap.append h pt k = (pt.insert Kind.pool h (.stl pt.self) k v).map (fun r => (r.1, (r.1.items r.2).value)) := by
   unfold HashLink.PoolMap.append
-  rw [gen_pool_insert h t _ k v (by simp)]
-  cases t.insert Kind.pool h (.stl t.self) k v <;> rfl
+  have e := gen_pool_insert_rel hr hi t.order.length k v
+  rw [nxtAt_length] at e
+  rw [e]
+  cases pt.insert Kind.pool h (.stl pt.self) k v <;> rfl
 
 /-! ### constructors -/
 
